@@ -108,6 +108,7 @@ type driver struct {
 	arrived chan *gate
 
 	jitter  atomic.Bool
+	bySid   map[string]*checkRun // parallel mode: session id presented -> the check in flight that presented it
 	mu      sync.Mutex
 	cur     *checkRun
 	now     int64
@@ -944,6 +945,14 @@ func (d *driver) prepare(st *Step) (*checkRun, *envoy.CheckRequest) {
 	d.rec.emit(ev)
 	if pendingCode != "" {
 		d.codeOwner[pendingCode] = c
+	}
+	if d.parallel && cookieVal != "" {
+		d.mu.Lock()
+		if d.bySid == nil {
+			d.bySid = map[string]*checkRun{}
+		}
+		d.bySid[cookieVal] = c
+		d.mu.Unlock()
 	}
 	return c, req
 }
